@@ -15,7 +15,8 @@ RULE = ('messages = neutral text + one or several renderings (12 pattern familie
         'lower/UPPER/Capitalised/digit-suffixed/mixed/non-ASCII-folded) with a secret drawn from the value class of the '
         "rendering's generated template (regex metacharacters, the four non-ASCII case-fold characters, Unicode "
         'whitespace where the class allows), x masks; plus a malformed stream (unbalanced quotes, nested renderings, '
-        'keys inside keys, random pattern-alphabet soup), single-pattern re.sub requests and non-str messages. '
+        'keys inside keys, random pattern-alphabet soup), the same key repeated 2..40 times in one message (same '
+        'and mixed renderings, distinct secrets), single-pattern re.sub requests and non-str messages. '
         'Non-trivial: the implementation changed the message (at least one substitution fired); distinct by '
         '(message, mask)')
 TRUSTED_BASE = [
@@ -341,6 +342,52 @@ def gen_rendering_case(rng, key=None, rendering=None, form=None, nparts=None, al
     return assemble({'kind': 'render', 'pre': pre, 'parts': parts, 'post': post, 'mask': mask})
 
 
+REPEAT_KEYS = ['password', 'token', 'admin_password', 'sslkey', 'chapsecret']
+REPEAT_COUNTS = [19, 20, 33, 40]          # above re.sub's would-be count of 18 (flags value) and above 32
+
+
+def gen_repeated_case(rng, key, rendering=None, n=None, strict=False, colon_ok=False):
+    """Many renderings of the SAME key in one message (one rendering, or mixed renderings when `rendering` is None),
+    every secret distinct; expected = every secret replaced.  Colon-quoted renderings followed by later quotes are
+    the listed class KF_C04_WILDCARD: used only when `colon_ok` (correspondence, or search with the finding listed)."""
+    n = n or rng.choice(REPEAT_COUNTS + [rng.randrange(2, 41)])
+    mask = gen_mask_text(rng)
+    pool = sorted(RENDERINGS) if colon_ok else [r for r in sorted(RENDERINGS) if r not in COLON]
+    parts, seen = [], set()
+    for i in range(n):
+        r = rendering or rng.choice(pool)
+        cls = value_class(r, reviewed=strict)
+        while True:
+            sec = ''.join(rng.choice('abcdefghijklmnopqrstuvwxyzABCXYZ0123456789') for _ in range(rng.randrange(3, 8))) \
+                + '%02d' % i
+            if sec not in seen and not contains_key_ci(sec) and all(in_class(c, cls) for c in sec):
+                break
+        seen.add(sec)
+        f = rng.choice(FORMS4)
+        head, val, tail = render(rng, r, key, f, sec, strict=True)
+        last = i == n - 1
+        sep = '' if last else rng.choice([' ', ' ', '\n', ', ', '; ', '\t'])
+        if r in BARE and not last and not sep[0].isspace():
+            sep = ' ' + sep
+        parts.append({'rendering': r, 'key': key, 'form': f, 'head': head, 'value': val, 'tail': tail, 'sep': sep})
+    pre = gen_neutral(rng, True, False)
+    post = gen_neutral(rng, False, 'sp')
+    if post and not post[0].isspace():
+        post = ' ' + post
+    return assemble({'kind': 'render', 'pre': pre, 'parts': parts, 'post': post, 'mask': mask})
+
+
+def repeated_grid(rng, strict, colon_ok, per_cell):
+    """(key, rendering or None) x counts: every rendering repeated for a few keys, plus mixed renderings."""
+    keys = REPEAT_KEYS[:3] + [rng.choice(all_keys())]
+    for key in keys:
+        for r in sorted(RENDERINGS) + [None, None]:
+            if r in COLON and not colon_ok:
+                continue
+            for _ in range(per_cell):
+                yield gen_repeated_case(rng, key, r, strict=strict, colon_ok=colon_ok)
+
+
 def assemble(case):
     """message / expected of a structured rendering case (expected by construction)."""
     msg = exp = case['pre']
@@ -486,6 +533,9 @@ def corr_cases(ctx):
         c = gen_rendering_case(rng, form=rng.choice(FORMS4 + ['mixed', 'folded']), nparts=rng.randrange(2, 5),
                                allow_wildcard_class=True)
         yield ('mask', c['message'], gen_mask_text(rng, rng.random() < 0.3), 'multi')
+    # 2b. the same key many times in one message (same rendering / mixed renderings), distinct secrets
+    for c in repeated_grid(rng, False, True, 2 if ctx.quick else 12):
+        yield ('mask', c['message'], c['mask'], 'repeated')
     # 3. malformed stream
     for _ in range(1700 if ctx.quick else 45000):
         yield ('mask', gen_malformed(rng), gen_mask_text(rng, rng.random() < 0.3), 'malformed')
@@ -679,6 +729,10 @@ def search(ctx, seeds, full=False):
         grid = grid[:1200]
     for k, f, r in grid:
         check(gen_rendering_case(rng, key=k, rendering=r, form=f, nparts=1, strict=True))
+        if len(fails) >= 5:
+            return fails
+    for c in repeated_grid(rng, True, listed, (3 if full else 1) if ctx.quick else 10):
+        check(c)
         if len(fails) >= 5:
             return fails
     for i in range(n):
